@@ -11,13 +11,6 @@ From Prov Require Import Str Sexp Values Spec.
 Import ListNotations.
 Open Scope string_scope.
 
-(* the lexical space of xsd:boolean (XML Schema Part 2, 3.2.2.1): exactly true, false, 1, 0 — an independent reader
-   does not share prov.model.parse_boolean's case-insensitivity ("True" is not an xsd:boolean) *)
-Definition xsd_boolean (s : string) : option bool :=
-  if (String.eqb s "false" || String.eqb s "0")%bool then Some false
-  else if (String.eqb s "true" || String.eqb s "1")%bool then Some true
-  else None.
-
 
 Inductive xnode : Type :=
 | XE (ns local : string) (attrs : list (string * string * string))
